@@ -611,6 +611,7 @@ xml_print_data(struct ly_out *out, const struct lyd_node *root, uint32_t options
 {
     const struct lyd_node *node;
     struct xmlpr_ctx pctx = {0};
+    LY_ERR rc = LY_SUCCESS;
 
     if (!root) {
         if ((out->type == LY_OUT_MEMORY) || (out->type == LY_OUT_CALLBACK)) {
@@ -626,16 +627,16 @@ xml_print_data(struct ly_out *out, const struct lyd_node *root, uint32_t options
 
     /* content */
     LY_LIST_FOR(root, node) {
-        LY_CHECK_RET(xml_print_node(&pctx, node));
+        LY_CHECK_GOTO(rc = xml_print_node(&pctx, node), finish);
         if (!(options & LYD_PRINT_WITHSIBLINGS)) {
             break;
         }
     }
 
 finish:
-    assert(!pctx.prefix.count && !pctx.ns.count);
+    assert(rc || (!pctx.prefix.count && !pctx.ns.count));
     ly_set_erase(&pctx.prefix, NULL);
     ly_set_erase(&pctx.ns, NULL);
     ly_print_flush(out);
-    return LY_SUCCESS;
+    return rc;
 }
